@@ -249,3 +249,19 @@ func regressCases(t testing.TB, prop string, mk func() interface{}, run func(nam
 		run(filepath.Base(f), c)
 	}
 }
+
+// markCurrent records the case that is about to run (<ID>-current-s<shard>.json). When the
+// process dies without reaching a property failure (race detector halt, fatal stack overflow)
+// the driver reports this file as the replay.
+func markCurrent(prop, sub string, c interface{}) {
+	dir := os.Getenv("VERIF_REPLAY_DIR")
+	if dir == "" {
+		return
+	}
+	os.MkdirAll(dir, 0o755)
+	env := replayEnvelope{Property: prop, Sub: sub, Observed: "the process died while this case was running (see the log)"}
+	env.Case, _ = json.Marshal(c)
+	b, _ := json.Marshal(env)
+	sh, _ := shard()
+	os.WriteFile(filepath.Join(dir, fmt.Sprintf("%s-current-s%d.json", prop, sh)), b, 0o644)
+}
